@@ -22,6 +22,7 @@ from pyvc import ext_c06
 from pyvc.contracts import (Any, Bool, Bytes, Callback, ConcList, Const, Inst, Int, IntRange, OneOf, Opaque, Opt, Str, MapOf,
                             contract, forall, iff, implies, lemma, mget, mhas, model, same)
 from pyvc.ext_c06 import all_keys, any_key
+from pyvc.ext_c11 import AnyListOf
 
 ENVIRONMENT = [
     'C06: asyncio call_soon scheduling (what runs between two scheduled callbacks, in which order deliveries of '
@@ -529,4 +530,299 @@ contract(
     uses=['bumble.controller:Controller.allocate_connection_handle'],
     inline=['Controller.public_address', 'Controller.random_address', 'Controller.send_advertising_pdu', 'Connection.__post_init__', 'HCI_AclDataPacketAssembler.__init__'],
     **CREATE_LE,
+)
+
+
+# ===========================================================================
+# bumble/link.py: routing on the LocalLink bus
+# ===========================================================================
+def loop_call_soon(ghost, callback, *args):
+    """asyncio loop.call_soon(callback, *args): counts what is scheduled and observes *what the callback does* by running
+    it right away (the callbacks of link.py only read their own captured locals, so when they run makes no difference
+    to what they deliver; the order in which the loop runs scheduled callbacks is environment)"""
+    ghost.scheduled = ghost.scheduled + 1
+    callback(*args)
+
+
+model('ghost:Loop', fields={}, methods={'call_soon': Callback('call_soon', effect=loop_call_soon)})
+LOOP_STUBS = {asyncio.get_running_loop: Callback('get_running_loop', effect=lambda ghost: ghost.loop)}
+
+
+def rx_acl(ghost, receiver, sender_address, transport, data):
+    """<controller>.on_link_acl_data(sender_address, transport, data) as scheduled by the link"""
+    ghost.rx = ghost.rx + 1
+    ghost.rx_target = receiver
+    ghost.rx_source = sender_address
+    ghost.rx_transport = transport
+    ghost.rx_data = data
+
+
+def rx_ll_control(ghost, receiver, sender_address, packet):
+    ghost.rx = ghost.rx + 1
+    ghost.rx_target = receiver
+    ghost.rx_source = sender_address
+    ghost.rx_packet = packet
+
+
+def rx_lmp(ghost, receiver, sender_address, packet):
+    ghost.rx = ghost.rx + 1
+    ghost.rx_target = receiver
+    ghost.rx_source = sender_address
+    ghost.rx_packet = packet
+
+
+def rx_adv(ghost, receiver, packet):
+    receiver.rx_adv = receiver.rx_adv + 1
+    receiver.rx_adv_packet = packet
+
+
+# a controller on the link, as the link sees it: its LE table, its public address, and what is scheduled on it
+LCTRL = 'bumble.controller:Controller#onlink'
+model(
+    LCTRL,
+    fields=dict(le_connections=MapOf(CONN), _public_address=ADDR, _random_address=ADDR, rx_adv=Int, rx_adv_packet=LOpt(Opaque('pdu'))),
+    methods={
+        'on_link_acl_data': Callback('on_link_acl_data', effect=rx_acl, with_self=True),
+        'on_ll_control_pdu': Callback('on_ll_control_pdu', effect=rx_ll_control, with_self=True),
+        'on_lmp_packet': Callback('on_lmp_packet', effect=rx_lmp, with_self=True),
+        'on_ll_advertising_pdu': Callback('on_ll_advertising_pdu', effect=rx_adv, with_self=True),
+    },
+)
+LC = Inst(LCTRL)
+LINK = 'bumble.link:LocalLink'
+
+
+def owns_self_address(c, address):
+    """controller c has an LE connection whose own address is `address`"""
+    return any_key(c.le_connections, lambda k: mget(c.le_connections, k, 'self_address') == address)
+
+
+def inner_inv(controller, address, _seen):
+    """no connection visited so far in this controller has that own address"""
+    return [all_keys(_seen, lambda k: mget(controller.le_connections, k, 'self_address') != address)]
+
+
+for _n in (1, 2, 3):
+    model(f'{LINK}#n{_n}', fields=dict(controllers=ConcList(LC, _n, 'set')))
+
+    def _find_le_post(n):
+        def post(self, address, res):
+            cs = [self.controllers[i] for i in range(n)]
+            is_one = False
+            for c in cs:
+                is_one = is_one or same(res, c)
+            nobody = True
+            for c in cs:
+                nobody = nobody and not owns_self_address(c, address)
+            return [
+                res is None or is_one,
+                res is None or owns_self_address(res, address),
+                implies(res is None, nobody),
+            ]
+
+        return post
+
+    contract(
+        'bumble.link:LocalLink.find_le_controller',
+        key=f'bumble.link:LocalLink.find_le_controller@n{_n}',
+        prop='C06',
+        params=dict(self=Inst(f'{LINK}#n{_n}'), address=ADDR),
+        ensures=_find_le_post(_n),
+        ensures_names=['a-controller-of-this-link', 'which-owns-a-connection-with-that-own-address', 'none-only-if-nobody-does'],
+        invariants={1: inner_inv},
+        modifies=[],
+        native_setup=nat_fix,
+        note=f'bounded(3): {_n} controller(s) on the link; their connection tables are of any size',
+    )
+
+    def _find_classic_post(n):
+        def post(self, address, res):
+            cs = [self.controllers[i] for i in range(n)]
+            is_one = False
+            for c in cs:
+                is_one = is_one or same(res, c)
+            nobody = True
+            for c in cs:
+                nobody = nobody and c._public_address != address
+            return [res is None or is_one, res is None or res._public_address == address, implies(res is None, nobody)]
+
+        return post
+
+    contract(
+        'bumble.link:LocalLink.find_classic_controller',
+        key=f'bumble.link:LocalLink.find_classic_controller@n{_n}',
+        prop='C06',
+        params=dict(self=Inst(f'{LINK}#n{_n}'), address=ADDR),
+        ensures=_find_classic_post(_n),
+        ensures_names=['a-controller-of-this-link', 'whose-public-address-is-that-address', 'none-only-if-nobody-has-it'],
+        modifies=[],
+        inline=['Controller.public_address'],
+        native_setup=nat_fix,
+        note=f'bounded(3): {_n} controller(s) on the link',
+    )
+
+# any number of controllers: the set is abstracted to "some controllers" (every element met is an arbitrary controller),
+# which keeps what matters for mis-routing -- whoever is returned does own such a connection / has that public address
+model(f'{LINK}#any', fields=dict(controllers=AnyListOf(LC)))
+contract(
+    'bumble.link:LocalLink.find_le_controller',
+    key='bumble.link:LocalLink.find_le_controller@any',
+    prop='C06',
+    params=dict(self=Inst(f'{LINK}#any'), address=ADDR),
+    ensures=lambda address, res: [res is None or owns_self_address(res, address)],
+    ensures_names=['which-owns-a-connection-with-that-own-address'],
+    invariants={0: lambda address: [address == address], 1: inner_inv},
+    modifies=[],
+    native_setup=nat_fix,
+)
+contract(
+    'bumble.link:LocalLink.find_classic_controller',
+    key='bumble.link:LocalLink.find_classic_controller@any',
+    prop='C06',
+    params=dict(self=Inst(f'{LINK}#any'), address=ADDR),
+    ensures=lambda address, res: [res is None or res._public_address == address],
+    ensures_names=['whose-public-address-is-that-address'],
+    invariants={0: lambda address: [address == address]},
+    modifies=[],
+    inline=['Controller.public_address'],
+    native_setup=nat_fix,
+)
+
+
+# callee views of the two look-ups (what send_* may rely on: proved above for any number of controllers).  What the
+# look-up returns is a ghost of the pre-state (ghost.found_le / ghost.found_classic), so that a counter-model can be
+# rebuilt natively as a link holding the sender and that controller.
+model(f'{LINK}#routing', fields={})
+FOUND_GHOST = dict(found_le=Opt(LC), found_classic=Opt(LC))
+contract(
+    'bumble.link:LocalLink.find_le_controller',
+    key='bumble.link:LocalLink.find_le_controller@callee',
+    params=dict(self=Inst(f'{LINK}#routing'), address=ADDR),
+    ghost=FOUND_GHOST,
+    ensures=lambda address, res: [res is None or owns_self_address(res, address)],
+    result=lambda ghost: ghost.found_le,
+    modifies=[],
+)
+contract(
+    'bumble.link:LocalLink.find_classic_controller',
+    key='bumble.link:LocalLink.find_classic_controller@callee',
+    params=dict(self=Inst(f'{LINK}#routing'), address=ADDR),
+    ghost=FOUND_GHOST,
+    ensures=lambda address, res: [res is None or res._public_address == address],
+    result=lambda ghost: ghost.found_classic,
+    modifies=[],
+)
+
+
+def nat_link(env):
+    """native pre-state of a send_*: a real link whose controllers are the sender and whatever the look-up finds"""
+    nat_fix(env)
+    g = env['ghost']
+    cs = [c for c in (env.get('sender_controller'), getattr(g, 'found_le', None), getattr(g, 'found_classic', None)) if c is not None]
+    env['self'].controllers = set(cs)
+
+
+FIND_USES = ['bumble.link:LocalLink.find_le_controller@callee', 'bumble.link:LocalLink.find_classic_controller@callee']
+RX_GHOST = dict(FOUND_GHOST, scheduled=Int, loop=Inst('ghost:Loop'), rx=Int, rx_target=Opt(LC), rx_source=ADDR, rx_transport=Int, rx_data=Bytes, rx_packet=Opt(Opaque('pdu')))
+RX_MOD = ['ghost.scheduled', 'ghost.rx', 'ghost.rx_target', 'ghost.rx_source', 'ghost.rx_transport', 'ghost.rx_data', 'ghost.rx_packet']
+
+# ---------------------------------------------------------------------------
+# send_acl_data: delivered to the controller owning the peer end, naming as source the sender's own address ON THAT
+# CONNECTION -- the receiver looks the connection up by that address (on_link_acl_data above)
+# ---------------------------------------------------------------------------
+contract(
+    'bumble.link:LocalLink.send_acl_data',
+    key='bumble.link:LocalLink.send_acl_data@le',
+    prop='C06',
+    params=dict(self=Inst(f'{LINK}#routing'), sender_controller=LC, destination_address=ADDR, transport=Const(LE), data=Bytes),
+    ghost=RX_GHOST,
+    # the sender has a connection to that peer: Connection.on_acl_pdu sends to its own peer_address, and every connection
+    # is stored under its peer address (table invariant)
+    requires=lambda sender_controller, destination_address: [mhas(sender_controller.le_connections, destination_address)],
+    ensures=lambda sender_controller, destination_address, transport, data, ghost, old: [
+        ghost.rx <= old.ghost.rx + 1 and ghost.scheduled == old.ghost.scheduled + (ghost.rx - old.ghost.rx),
+        implies(ghost.rx == old.ghost.rx + 1, ghost.rx_target is not None and owns_self_address(ghost.rx_target, destination_address)),
+        implies(ghost.rx == old.ghost.rx + 1, ghost.rx_source == mget(sender_controller.le_connections, destination_address, 'self_address')),
+        implies(ghost.rx == old.ghost.rx + 1, ghost.rx_transport == LE and ghost.rx_data == data),
+    ],
+    ensures_names=['at-most-one-delivery-scheduled', 'to-a-controller-owning-the-peer-end', 'source-is-the-senders-own-address-on-that-connection', 'transport-and-payload-unchanged'],
+    modifies=RX_MOD,
+    uses=FIND_USES,
+    stubs=LOOP_STUBS,
+    inline=['Controller.public_address', 'Controller.random_address'],
+    native_setup=nat_link,
+)
+contract(
+    'bumble.link:LocalLink.send_acl_data',
+    key='bumble.link:LocalLink.send_acl_data@classic',
+    prop='C06',
+    params=dict(self=Inst(f'{LINK}#routing'), sender_controller=LC, destination_address=ADDR, transport=Const(BR_EDR), data=Bytes),
+    ghost=RX_GHOST,
+    ensures=lambda sender_controller, destination_address, transport, data, ghost, old: [
+        ghost.rx <= old.ghost.rx + 1 and ghost.scheduled == old.ghost.scheduled + (ghost.rx - old.ghost.rx),
+        implies(ghost.rx == old.ghost.rx + 1, ghost.rx_target is not None and ghost.rx_target._public_address == destination_address),
+        # BR/EDR connections are keyed by the peer's BD_ADDR = its public address
+        implies(ghost.rx == old.ghost.rx + 1, ghost.rx_source == sender_controller._public_address),
+        implies(ghost.rx == old.ghost.rx + 1, ghost.rx_transport == BR_EDR and ghost.rx_data == data),
+    ],
+    ensures_names=['at-most-one-delivery-scheduled', 'to-the-controller-with-that-bd-addr', 'source-is-the-senders-bd-addr', 'transport-and-payload-unchanged'],
+    modifies=RX_MOD,
+    uses=FIND_USES,
+    stubs=LOOP_STUBS,
+    inline=['Controller.public_address', 'Controller.random_address'],
+    native_setup=nat_link,
+)
+contract(
+    'bumble.link:LocalLink.send_acl_data',
+    key='bumble.link:LocalLink.send_acl_data@other-transport',
+    prop='C06',
+    params=dict(self=Inst(f'{LINK}#routing'), sender_controller=LC, destination_address=ADDR, transport=Int, data=Bytes),
+    ghost=RX_GHOST,
+    requires=lambda transport: [transport != LE, transport != BR_EDR],
+    ensures=lambda: [False],
+    ensures_names=['never-returns-normally'],
+    raises={ValueError: lambda ghost, old: [ghost.scheduled == old.ghost.scheduled]},
+    modifies=RX_MOD,
+    uses=FIND_USES,
+    stubs=LOOP_STUBS,
+    native_setup=nat_link,
+)
+
+# ---------------------------------------------------------------------------
+# send_ll_control_pdu / send_lmp_packet
+# ---------------------------------------------------------------------------
+contract(
+    'bumble.link:LocalLink.send_ll_control_pdu',
+    prop='C06',
+    params=dict(self=Inst(f'{LINK}#routing'), sender_address=ADDR, receiver_address=ADDR, packet=Opaque('pdu')),
+    ghost=RX_GHOST,
+    ensures=lambda sender_address, receiver_address, packet, ghost, old: [
+        ghost.rx == old.ghost.rx + 1 and ghost.scheduled == old.ghost.scheduled + 1,
+        ghost.rx_target is not None and owns_self_address(ghost.rx_target, receiver_address),
+        ghost.rx_source == sender_address and ghost.rx_packet == packet,
+    ],
+    ensures_names=['exactly-one-delivery-scheduled', 'to-a-controller-owning-the-peer-end', 'sender-address-and-pdu-unchanged'],
+    raises={core.InvalidArgumentError: lambda ghost, old: [ghost.scheduled == old.ghost.scheduled]},
+    modifies=RX_MOD,
+    uses=FIND_USES,
+    stubs=LOOP_STUBS,
+    native_setup=nat_link,
+)
+contract(
+    'bumble.link:LocalLink.send_lmp_packet',
+    prop='C06',
+    params=dict(self=Inst(f'{LINK}#routing'), sender_controller=LC, receiver_address=ADDR, packet=Opaque('pdu')),
+    ghost=RX_GHOST,
+    ensures=lambda sender_controller, receiver_address, packet, ghost, old: [
+        ghost.rx == old.ghost.rx + 1 and ghost.scheduled == old.ghost.scheduled + 1,
+        ghost.rx_target is not None and ghost.rx_target._public_address == receiver_address,
+        ghost.rx_source == sender_controller._public_address and ghost.rx_packet == packet,
+    ],
+    ensures_names=['exactly-one-delivery-scheduled', 'to-the-controller-with-that-bd-addr', 'source-is-the-senders-bd-addr-and-pdu-unchanged'],
+    raises={core.InvalidArgumentError: lambda ghost, old: [ghost.scheduled == old.ghost.scheduled]},
+    modifies=RX_MOD,
+    uses=FIND_USES,
+    stubs=LOOP_STUBS,
+    inline=['Controller.public_address'],
+    native_setup=nat_link,
 )
